@@ -993,13 +993,41 @@ def _existence_checks(ctx, f):
                "raises for a named column that is not in the file")
         return
     ctx.require(cc is not None, f"{f.qual}: check_column helper not found")
+    # truth table: the helper raises iff a column name was given and it is
+    # not among the file's columns - however the test is spelled (one
+    # conjunction, a guard clause with early return, nested ifs)
+    from ..chunks import Unknown as _Unknown, ev as _ev
     cfg = CFG(cc.node)
-    raises = [n for n in ast.walk(cc.node) if isinstance(n, ast.Raise)]
-    ok = len(raises) == 1 and [ast.unparse(g[0]) for g in cfg.guards(
-        raises[0]) if g[1]] == ["column and column not in columns"]
-    ctx.check(ok, "C10e-check-raises", cc,
+    cT = Terms(DefUse(ctx.prog, cc))
+    raises = {cfg.node_of(n).id for n in ast.walk(cc.node)
+              if isinstance(n, ast.Raise)}
+    p_col = [p_ for p_ in cc.params][0]
+    bad, rows = [], []
+    for val in (None, "", "present", "absent"):
+        def atoms(t, val=val):
+            if t == ("param", p_col):
+                return val
+            if t[0] in ("free", "name", "var", "param") and isinstance(
+                    t[1], str) and t[1].split(".")[-1] == "columns":
+                return ["present", "other"]
+            raise KeyError(t)
+
+        def decide(test):
+            try:
+                return bool(_ev(cT.of(test), atoms))
+            except (_Unknown, KeyError):
+                return None
+        vis = cfg.visited_under(cfg.entry.id, decide)
+        got = bool(raises & vis)
+        want = val == "absent"
+        rows.append((val, got))
+        if got != want:
+            bad.append((val, got))
+    ctx.check(bool(raises) and not bad, "C10e-check-raises", cc,
               "check_column raises for a named column that is not in the "
-              "file", "check_column no longer raises", node=cc.node)
+              "file (and only then)",
+              "check_column no longer raises exactly for a named, missing "
+              f"column: (column, raises) = {bad or rows}", node=cc.node)
 
 
 def _env(ctx):
